@@ -30,7 +30,7 @@ def confirm(v, hist):
     sc = c.scratch()
     ops = "".join(json.dumps(o) + "\n" for o in hist)
     out = os.path.join(sc, "confirm-%d.txt" % int(time.time() * 1e6))
-    r = c.tlc("SymbolGraphReplay", "SymbolGraphReplay.cfg", workers=1, defines={"graph_ops.ndjson": ops}, out_file=out, timeout=300)
+    r = c.tlc("SymbolGraphImplReplay", "SymbolGraphImplReplay.cfg", workers=1, defines={"graph_ops.ndjson": ops}, out_file=out, timeout=300)
     if r.violated or r.error or r.postcondition_false or r.rc == 124:
         raise c.Trouble("TLC could not follow the candidate history on the model (spec-level problem):\n" + r.out[-2000:])
     rep = _replay(v, out, out + ".json", BIG)
@@ -61,17 +61,35 @@ def run(tier):
     cov["states"] = r.distinct
     cov["transitions"] = r.generated
     cov["model_cfg"] = cfg
+    # the graph as coded (four indices, RemoveNode over every order of the dependents) in lock step with the abstract model:
+    # refinement, agreement of the indices, confluence of the cascade; and the vacuity guard (the pre-repair RemoveEdge breaks IndexAgree)
+    icfgs = ["SymbolGraphImpl_small.cfg"] + (["SymbolGraphImpl_three.cfg", "SymbolGraphImpl_deep.cfg"] if thorough else [])
+    cov["impl_models"] = {}
+    for icfg in icfgs:
+        ri = c.tlc("SymbolGraphImpl", icfg, workers=min(c.NCPU, 14), timeout=3000)
+        c.tlc_model_ok(ri, "SymbolGraphImpl/" + icfg)
+        cov["impl_models"][icfg] = {"states": ri.distinct, "transitions": ri.generated}
+        cov["states"] += ri.distinct
+        cov["transitions"] += ri.generated
+        c.log("index-level model %s: %d distinct states; refinement, index agreement and confluence of RemoveNode hold" % (icfg, ri.distinct))
+    rg = c.tlc("SymbolGraphImpl", "SymbolGraphImpl_asbuilt.cfg", workers=4, timeout=600)
+    if "IndexAgree" not in rg.violated:
+        raise c.Trouble("the pre-repair RemoveEdge (adjacency always dropped) was expected to violate IndexAgree (vacuity guard):\n" + rg.out[-1500:])
+    cov["impl_models"]["SymbolGraphImpl_asbuilt.cfg"] = {"violates": "IndexAgree", "counterexample_len": rg.depth}
 
     # 2. direction A -------------------------------------------------------------------------------------------------
     replayed = 0
     nontrivial = 0
     transitions = set()
-    runs = [("SymbolGraph_emit_thorough.cfg" if thorough else "SymbolGraph_emit.cfg", None, None, ["--dkeys", "k1,k2", "--ukeys", "string"])]
-    runs.append(("SymbolGraph_emit3.cfg", None, None, ["--dkeys", "k1,k2,k3", "--ukeys", "string"]))
-    runs.append(("SymbolGraph_sim.cfg", "num=%d" % (3000 if thorough else 300), 40 if thorough else 30, BIG))
-    for cfgname, sim, depth, uni in runs:
+    runs = [("SymbolGraph", "SymbolGraph_emit_thorough.cfg" if thorough else "SymbolGraph_emit.cfg", None, None, ["--dkeys", "k1,k2", "--ukeys", "string"])]
+    runs.append(("SymbolGraph", "SymbolGraph_emit3.cfg", None, None, ["--dkeys", "k1,k2,k3", "--ukeys", "string"]))
+    # behaviours of the lock-step model carry the expected index contents as well as the public observation
+    runs.append(("SymbolGraphImpl", "SymbolGraphImpl_emit.cfg", None, None, ["--dkeys", "k1,k2", "--ukeys", "string"]))
+    runs.append(("SymbolGraphImpl", "SymbolGraphImpl_sim.cfg", "num=%d" % (3000 if thorough else 300), 40 if thorough else 30, BIG))
+    idx_compared = 0
+    for module, cfgname, sim, depth, uni in runs:
         out = os.path.join(sc, cfgname + ".cases")
-        r = c.tlc("SymbolGraph", cfgname, workers=1, out_file=out, simulate=sim, depth=depth, seed_=seed, timeout=3000)
+        r = c.tlc(module, cfgname, workers=1, out_file=out, simulate=sim, depth=depth, seed_=seed, timeout=3000)
         if r.rc == 124 or r.error or r.violated:
             raise c.Trouble("TLC emission run %s failed:\n%s" % (cfgname, r.out[-2000:]))
         rep = _replay(v, out, out + ".json", uni)
@@ -81,6 +99,7 @@ def run(tier):
         if rep["cases"] == 0:
             raise c.Trouble("emission run %s produced no behaviours" % cfgname)
         replayed += rep["cases"]
+        idx_compared += rep.get("idx_compared", 0)
         nontrivial += rep["nontrivial"]
         cov["samples"] += rep["samples"][:2]
         cov.setdefault("runs", []).append({"cfg": cfgname, "behaviours": rep["cases"], "operations": rep["ops"],
@@ -127,6 +146,9 @@ def run(tier):
                                     "expected": m["expected"], "observed": m["observed"], "signature": sig})
         violations.append(("history %s: %s" % (json.dumps([[o["op"], o["k"], o["to"], o["kind"], o["set"]] for o in m["hist"][:m["step"]]]), "; ".join(m["diffs"][:4])), path))
 
+    cov["index_states_compared"] = idx_compared
+    if idx_compared == 0:
+        raise c.Trouble("no index-level comparison took place (vacuous run)")
     cov["traces_validated_against_impl"] = replayed + n
     cov["evaluations"] = replayed + n
     cov["distinct_nontrivial"] = nontrivial
